@@ -96,33 +96,66 @@ Theorem C13_attributes_int_oracle : forall n i, 0 <= i < n -> segyio_attr_int n 
 Proof. exact attr_int_segyio_inrange. Qed.
 Print Assumptions C13_attributes_int_oracle.
 
-(* subvolume[a:b:c, ...], one axis (the three axes are resolved independently, sub_getitem in Gen/Accessors.v):
-   on an ASCENDING axis a slice of the documented form (start a coordinate, stop a later coordinate or one increment past
-   the last, step a positive multiple of the increment) passes _check_subscripts, and the ordinal range handed to
-   read_subvolume with the stride applied to the result selects exactly the coordinates range(start, stop, step) *)
-Theorem C13_subvolume_axis_agree : forall a s n, s <> 0 -> (2 <= n)%nat -> forall sl, 0 < s -> sub_slice_ok a s n sl = true ->
+(* subvolume[a:b:c, ...], one axis of EITHER direction (s > 0 ascending, s < 0 descending; Gen/Accessors.v is generated
+   from the repaired _check_subscripts, findings/D27s_subvolume_descending.patch): a slice of the documented form
+   (sub_slice_ok: start a coordinate, stop a coordinate other than the first or one increment past the last, step a
+   multiple of the increment in axis order) passes _check_subscripts, and the ordinal range handed to read_subvolume with
+   the stride applied to the result selects exactly the coordinates of Python's range(start, stop, step), in axis order *)
+Theorem C13_subvolume_axis_agree : forall a s n, s <> 0 -> (2 <= n)%nat -> forall sl, sub_slice_ok a s n sl = true ->
   sub_check_subscripts sl (axis a s n) = Return tt /\
   exists i0 k i1, sub_get_index_subscripts sl (axis a s n) = Return (i0, k, i1) /\ 0 <= i0 /\ i1 <= Z.of_nat n /\ 0 < k /\
     map (fun i => a + i * s) (range_list i0 i1 k) = sub_coords a s n sl.
 Proof. exact subvolume_axis_agree. Qed.
 Print Assumptions C13_subvolume_axis_agree.
 
+(* the whole expression subvolume[il, xl, z] on three regular axes of any directions: sub_getitem (GENERATED
+   SubvolumeAccessor.__getitem__) returns, per axis, (first ordinal, end ordinal, stride) such that the coordinates at
+   range(first, end, stride) are range(start, stop, step) over coordinates (sub_axis_reads, Proofs/Accessors.v) *)
+Theorem C13_subvolume_getitem_agree : forall a1 s1 a2 s2 a3 s3 n1 n2 n3,
+  s1 <> 0 -> s2 <> 0 -> s3 <> 0 -> (2 <= n1)%nat -> (2 <= n2)%nat -> (2 <= n3)%nat -> forall il xl z,
+  sub_slice_ok a1 s1 n1 il = true -> sub_slice_ok a2 s2 n2 xl = true -> sub_slice_ok a3 s3 n3 z = true ->
+  exists ti tx tz, sub_getitem (axis a1 s1 n1) (axis a2 s2 n2) (axis a3 s3 n3) il xl z = Return (ti, tx, tz) /\
+    sub_axis_reads a1 s1 n1 il ti /\ sub_axis_reads a2 s2 n2 xl tx /\ sub_axis_reads a3 s3 n3 z tz.
+Proof. exact subvolume_getitem_agree. Qed.
+Print Assumptions C13_subvolume_getitem_agree.
+
+(* rejection, both directions.  sub_start_inside: a <= v < a + n*s when s > 0, a + n*s < v <= a when s < 0;
+   sub_stop_inside: a < w <= a + n*s resp. a + n*s <= w < a (Model/Accessors.v) *)
 Theorem C13_subvolume_start_outside_rejected : forall a s n, s <> 0 -> (2 <= n)%nat -> forall sl v,
-  sl_start sl = Some v -> ~ (a <= v < a + Z.of_nat n * s) -> sub_check_subscripts sl (axis a s n) = Raise IndexErr.
+  sl_start sl = Some v -> ~ sub_start_inside a s n v -> sub_check_subscripts sl (axis a s n) = Raise IndexErr.
 Proof. exact subvolume_start_outside_rejected. Qed.
 Print Assumptions C13_subvolume_start_outside_rejected.
+
+Theorem C13_subvolume_stop_outside_rejected : forall a s n, s <> 0 -> (2 <= n)%nat -> forall sl w,
+  sl_stop sl = Some w -> ~ sub_stop_inside a s n w -> sub_check_subscripts sl (axis a s n) = Raise IndexErr.
+Proof. exact subvolume_stop_outside_rejected. Qed.
+Print Assumptions C13_subvolume_stop_outside_rejected.
+
+Theorem C13_subvolume_step_not_multiple_rejected : forall a s n, s <> 0 -> (2 <= n)%nat -> forall sl c,
+  sl_step sl = Some c -> c mod s <> 0 -> sub_check_subscripts sl (axis a s n) = Raise IndexErr.
+Proof. exact subvolume_step_not_multiple_rejected. Qed.
+Print Assumptions C13_subvolume_step_not_multiple_rejected.
 
 Theorem C13_subvolume_start_off_axis_rejected : forall a s n, s <> 0 -> (2 <= n)%nat -> forall sl v,
   sl_start sl = Some v -> ~ In v (axis a s n) -> sub_get_index_subscripts sl (axis a s n) = Raise IndexErr.
 Proof. exact subvolume_start_off_axis_rejected. Qed.
 Print Assumptions C13_subvolume_start_off_axis_rejected.
 
-(* finding D27 (refutation of the unguarded statement): on a DESCENDING axis every explicit start or stop is refused,
-   existing coordinates included *)
-Theorem C13_subvolume_descending_refused : forall a s n, s <> 0 -> (2 <= n)%nat -> forall sl,
-  s < 0 -> (sl_start sl <> None \/ sl_stop sl <> None) -> sub_check_subscripts sl (axis a s n) = Raise IndexErr.
-Proof. exact subvolume_descending_refused. Qed.
-Print Assumptions C13_subvolume_descending_refused.
+Theorem C13_subvolume_stop_off_axis_rejected : forall a s n, s <> 0 -> (2 <= n)%nat -> forall sl w,
+  sl_stop sl = Some w -> ~ In w (axis a s n) -> w <> a + Z.of_nat n * s ->
+  sub_get_index_subscripts sl (axis a s n) = Raise IndexErr.
+Proof. exact subvolume_stop_off_axis_rejected. Qed.
+Print Assumptions C13_subvolume_stop_off_axis_rejected.
+
+(* the whole expression: a start that is no coordinate of its axis, or a stop that is neither a coordinate nor the
+   one-past-the-end value (lines segyio does not have), on any of the three axes, of any directions: IndexError *)
+Theorem C13_subvolume_getitem_rejects : forall a1 s1 a2 s2 a3 s3 n1 n2 n3,
+  s1 <> 0 -> s2 <> 0 -> s3 <> 0 -> (2 <= n1)%nat -> (2 <= n2)%nat -> (2 <= n3)%nat -> forall il xl z,
+  (sub_start_bad a1 s1 n1 il \/ sub_stop_bad a1 s1 n1 il) \/ (sub_start_bad a2 s2 n2 xl \/ sub_stop_bad a2 s2 n2 xl) \/
+  (sub_start_bad a3 s3 n3 z \/ sub_stop_bad a3 s3 n3 z) ->
+  sub_getitem (axis a1 s1 n1) (axis a2 s2 n2) (axis a3 s3 n3) il xl z = Raise IndexErr.
+Proof. exact subvolume_getitem_rejects. Qed.
+Print Assumptions C13_subvolume_getitem_rejects.
 
 (* which reader attribute / method each accessor and each emulator attribute is bound to (generated tables) *)
 Example C13_wiring :
@@ -152,7 +185,10 @@ Theorem C13_oracle_guard_needed : exists a s n sl,
 Proof. exists 4, (-2), 3%nat, (mkslice None None (Some (-2))). repeat split; vm_compute; reflexivity. Qed.
 Print Assumptions C13_oracle_guard_needed.
 
-(* the hypotheses are satisfiable by a non-trivial input: descending axis 9,7,5,3,1, slice [7::-4] -> lines 7, 3 *)
+(* the hypotheses are satisfiable by a non-trivial input: descending axis 9,7,5,3,1, slice [7::-4] -> lines 7, 3;
+   subvolume on the ascending axis 10,13,16,19 with [13:22:6] -> ordinals 1,3 = coordinates 13,19; on the DESCENDING axis
+   9,7,5,3,1 with [7:1:-4] -> ordinals 1,3 = coordinates 7,3, and with the sentinel stop [5:-1:-2] -> 5,3,1 (formerly
+   refused: finding D27-subvolume, repaired); a stop above the first line of a descending axis is still refused *)
 Example C13_nonvacuous :
   axis_ok 9 (-2) 5 = true /\ line_slice_ok 9 (-2) 5 (mkslice (Some 7) None (Some (-4))) = true /\
   oracle_ok 9 (-2) 5 (mkslice (Some 7) None (Some (-4))) = true /\
@@ -161,6 +197,16 @@ Example C13_nonvacuous :
   acc_getitem_slice 7 (mkslice (Some (-2)) None (Some (-3))) = Return [5; 2] /\
   sub_slice_ok 10 3 4 (mkslice (Some 13) (Some 22) (Some 6)) = true /\
   sub_get_index_subscripts (mkslice (Some 13) (Some 22) (Some 6)) (axis 10 3 4) = Return (1, 2, 4) /\
-  sub_coords 10 3 4 (mkslice (Some 13) (Some 22) (Some 6)) = [13; 19].
+  sub_coords 10 3 4 (mkslice (Some 13) (Some 22) (Some 6)) = [13; 19] /\
+  sub_slice_ok 9 (-2) 5 (mkslice (Some 7) (Some 1) (Some (-4))) = true /\
+  sub_check_subscripts (mkslice (Some 7) (Some 1) (Some (-4))) (axis 9 (-2) 5) = Return tt /\
+  sub_get_index_subscripts (mkslice (Some 7) (Some 1) (Some (-4))) (axis 9 (-2) 5) = Return (1, 2, 4) /\
+  sub_coords 9 (-2) 5 (mkslice (Some 7) (Some 1) (Some (-4))) = [7; 3] /\
+  sub_slice_ok 9 (-2) 5 (mkslice (Some 5) (Some (-1)) (Some (-2))) = true /\
+  sub_coords 9 (-2) 5 (mkslice (Some 5) (Some (-1)) (Some (-2))) = [5; 3; 1] /\
+  sub_getitem (axis 9 (-2) 5) (axis 10 3 4) (axis 0 4 6) (mkslice (Some 7) (Some 1) (Some (-4))) (mkslice (Some 13) (Some 22) (Some 6))
+              (mkslice None (Some 16) None) = Return ((1, 4, 2), (1, 4, 2), (0, 4, 1)) /\
+  sub_check_subscripts (mkslice None (Some 11) None) (axis 9 (-2) 5) = Raise IndexErr /\
+  sub_get_index_subscripts (mkslice (Some 6) None None) (axis 9 (-2) 5) = Raise IndexErr.
 Proof. repeat split; vm_compute; reflexivity. Qed.
 Print Assumptions C13_nonvacuous.
